@@ -90,6 +90,17 @@ RowsHomogeneous(md) ==
 InDomainC01(t) == ~IsEmptyTable(t) /\ IsInj(t.obs) /\ IsInj(t.samp)
                   /\ RowsHomogeneous(t.omd) /\ RowsHomogeneous(t.smd)
 
+\* A category is stored as ONE homogeneous dataset: when it holds whole numbers on some IDs and fractions on others
+\* every value comes back as a float (7 reads back as 7.0, the same number); the canonical text of the value is
+\* unchanged, only the kind of the whole numbers becomes "f".  Categories of one kind must keep their kind.
+MixedNumeric(t, ax, key) ==
+  LET es == UNION {RowAt(t, ax, k) : k \in 1..Len(Ids(t, ax))} IN
+  (\E e \in es : e[1] = key /\ e[2] = "i") /\ (\E e \in es : e[1] = key /\ e[2] = "f")
+H5Row(t, ax, k) == {IF e[2] = "i" /\ MixedNumeric(t, ax, e[1]) THEN <<e[1], "f", e[3]>> ELSE e : e \in RowAt(t, ax, k)}
+H5MdSame(got, src, ax) ==
+  /\ Len(Ids(got, ax)) = Len(Ids(src, ax))
+  /\ \A k \in 1..Len(Ids(src, ax)) : RowAt(got, ax, k) = H5Row(src, ax, k)
+
 \* ------------------------------------------------------------- C01 HDF5 round trip
 \* ev.obs : [raw, wrote : "ok" | error, hdr : [gen, date, gmd_obs, gmd_samp] of the loaded table,
 \*           src_hdr : what was passed to the writer / held by the source]
@@ -110,7 +121,7 @@ Clauses_rt_hdf5(ev) ==
         ELSE LET got == ev.post[ev.res] IN
          [C01_ids_in_order |-> got.obs = src.obs /\ got.samp = src.samp,
           C01_values_bit_identical |-> got.mat = src.mat,
-          C01_metadata_same |-> MdEq(got, src, "observation") /\ MdEq(got, src, "sample")
+          C01_metadata_same |-> H5MdSame(got, src, "observation") /\ H5MdSame(got, src, "sample")
                                  /\ got.omd.has = src.omd.has /\ got.smd.has = src.smd.has,
           C01_table_type |-> got.type = wtype,
           C01_table_id_or_placeholder |-> got.tid = (IF src.tid = "" THEN "No Table ID" ELSE src.tid),
